@@ -393,7 +393,7 @@ fn run_board(prop: Prop, tier: Tier) -> i32 {
             // (the thorough tier runs the full EP family with these extras)
             let t0 = Instant::now();
             let fam = EpFam { extras: vec![(pc(BLACK, ROOK), false), (pc(BLACK, QUEEN), false), (pc(BLACK, BISHOP), false)] };
-            let sf = Strided(&fam, 11);
+            let sf = Strided(&fam, 23);
             let n = for_family(&sf, &|p| visit(&ctx, p));
             let n2 = for_family(&Flipped(&sf), &|p| visit(&ctx, p));
             fams.push(json!({"family": format!("{} with an enemy rook / queen / bishop anywhere and the king anywhere (one or two capturing pawns, one of them possibly pinned)", sf.name()), "index_space": sf.len(), "legal_members": n, "flipped_members": n2, "secs": t0.elapsed().as_secs_f64()}));
